@@ -21,8 +21,8 @@ MODES = {"quick": ["jit"] * 12 + ["bounds"] * 4, "thorough": ["jit"] * 12 + ["bo
 CASE_TIMEOUT_S = 300
 N1, N2, N3, N4 = 27, 27 ** 2, 27 ** 3, 27 ** 4
 RULE = ("configurations of k=1..4 points: ALL configurations with coordinates in {-1,0,1} for k=1,2,3 (20 439) in both tiers; "
-        "k=4: 60 000 sampled (quick) / all 531 441 (thorough, exhaustive); thorough adds 200 000 sampled configurations over "
-        "{-2..2}^3; plus random real configurations (12 000 quick / 100 000 thorough) with aspect ratios over 12 orders of "
+        "k=4: 60 000 sampled (quick) / all 531 441 (thorough, exhaustive); plus 24 000 (quick) / 200 000 (thorough) sampled "
+        "configurations over {-2..2}^3 (region boundaries that the {-1,0,1} lattice cannot produce); plus random real configurations (12 000 quick / 100 000 thorough) with aspect ratios over 12 orders of "
         "magnitude, duplicated and nearly dependent points, and 'GJK slivers' (points collinear up to rounding on a line that "
         "misses the origin). One case = a block of 64 configurations. For each configuration "
         "both solvers run: jolt get_closest_point_to_origin(Y,k,inf) and the original "
@@ -42,7 +42,7 @@ def _n_lattice_blocks(tier):
 
 def cases(tier):
     n, n4 = _n_lattice_blocks(tier)
-    extra5 = 200000 if tier == "thorough" else 0
+    extra5 = 200000 if tier == "thorough" else 24000
     real = 100000 if tier == "thorough" else 12000
     return (n + n4 + extra5 + real + BLOCK - 1) // BLOCK
 
@@ -73,7 +73,7 @@ def config(rng, g, tier):
             return _decode(g2, 4), "lattice3-k4"
         return _decode(int(rng.integers(0, N4)), 4), "lattice3-k4-sampled"
     g3 = g2 - n4
-    extra5 = 200000 if tier == "thorough" else 0
+    extra5 = 200000 if tier == "thorough" else 24000
     if g3 < extra5:
         k = int(rng.integers(2, 5))
         return rng.integers(-2, 3, size=(k, 3)).astype(float), "lattice5-k%d" % k
